@@ -31,6 +31,9 @@ type Function struct {
 	CleanupLabel string
 }
 
+// Identifies a function of a module.
+type fnKey struct{ module, ident string }
+
 type Compiler struct {
 	modules         map[string]map[string]*Function
 	currFn          string
@@ -46,6 +49,9 @@ type Compiler struct {
 	moduleScopes map[string]map[string]string
 	// Functions which a module imports from other Homescript modules: local name -> mangled function.
 	importedFns map[string]map[string]string
+	// All functions in the order in which they were created: the functions of a module come before
+	// the function literals in their bodies and a function literal comes before the ones nested in it.
+	fnOrder []fnKey
 	// Number of try blocks of the current function which enclose the code that is currently compiled.
 	// A `return`, `break` or `continue` which leaves them must also remove their exception labels.
 	tryDepth int
